@@ -142,3 +142,85 @@ def check_ttl_not_clamped_on_write(R, F, rule='opt-ttl-raw'):
                   'OPT TTL derives from extended_rcode_upper_bits without a clamping constructor',
                   'the OPT TTL field (extended RCODE / version / flags) is built through %s, which clamps values above 2^31-1 to 0: extended RCODEs >= 2048 would be emitted as 0' % through if through else 'OPT TTL does not derive from extended_rcode_upper_bits')
     R.require(found, rule, FINISH + '|opt-emission', fin.where(), 'OPT emission found', 'finish_with_mac no longer emits the OPT record through add_rr(Type::OPT)')
+
+
+HEADER_SETTERS = ['set_id', 'set_qr', 'set_opcode', 'set_aa', 'set_tc', 'set_rd', 'set_ra', 'set_rcode', 'set_extended_rcode']
+
+
+def octets_writers(F):
+    """Writer methods that write into the buffer: index_mut / copy / fill on `octets`, or indexed stores."""
+    out = {}
+    for gp, fn in F.fns.items():
+        if not gp.startswith('message::writer::'):
+            continue
+        hits = []
+        for b, blk in enumerate(fn.blocks):
+            if blk['cleanup']:
+                continue
+            for st in blk['stmts']:
+                if st['k'] == 'assign' and st['lhs']['p']:
+                    c = fn.canon(st['lhs'])
+                    names = [p['n'] for p in c['p'] if isinstance(p, dict) and 'f' in p]
+                    if names[:1] == ['octets'] and any(isinstance(p, dict) and ('idx' in p or 'cidx' in p) for p in c['p']) and effects.strip_ty(fn.local_ty(c['l'])) == WRITER_TY:
+                        hits.append(b)
+            t = blk['term']
+            if t['k'] == 'call':
+                n = callee_name(t)
+                if ('IndexMut' in n or 'index_mut' in n or n.endswith('copy_from_slice') or n.endswith('::fill') or 'copy_within' in n) and t['args'] and is_place(t['args'][0]):
+                    sl = slice_of(fn, t['args'][0], through_calls=True)
+                    if any(fp[:1] == ('octets',) for fp in sl.field_paths()) or any('octets' in n2 for n2 in sl.places()):
+                        hits.append(b)
+        if hits:
+            out[gp] = sorted(set(hits))
+    return out
+
+
+
+def check_no_overrun(R, F):
+    """`octets` is written only by bounded writers; try_push's copy is dominated by the space test."""
+    ow = octets_writers(F)
+    allowed = {W + s for s in HEADER_SETTERS} | {W + 'new', W + 'try_from_template_impl', W + 'write'}
+    for gp in sorted(ow):
+        fn = F.fns[gp]
+        R.require(gp in allowed, 'octets-writers', gp, fn.where(ow[gp][0]), 'allowed buffer writer',
+                  '%s writes into the message buffer but is not one of the bounded writers (header setters, write_u16, constructors, try_push)' % gp)
+    R.floor('octets-writers', 10)
+    # the raw writer `write` is called only by try_push (under the space test) and write_u16
+    wcallers = sorted({fn.gpath for fn in F.fns.values() for b, t in calls_in(fn, W + 'write')})
+    R.require(wcallers == sorted([W + 'try_push', W + 'write_u16']), 'octets-writers', W + 'write|callers', F.fn(W + 'write').where(),
+              'raw write is called only by try_push and write_u16', 'the unchecked raw writer is called by %s, expected only try_push and write_u16' % wcallers)
+    tp = F.fn(W + 'try_push')
+    for b, t in calls_in(tp, W + 'write'):
+        ok = False
+        for s_ in tp.doms(b):
+            for p in tp.preds()[s_]:
+                sw = tp.blocks[p]['term']
+                if sw['k'] == 'switch' and not tp.dominates(s_, p):
+                    txt = paths.explain_edge(tp, p, s_)
+                    if txt and re.match(r'^Ge\(Sub\(arg1\.available,arg1\.cursor\),slice::len\(arg2\)\) not in \[0\]$', txt):
+                        ok = True
+        pos = paths.show_operand(tp, t['args'][1])
+        R.require(ok and pos == 'arg1.cursor', 'try-push-guard', W + 'try_push|write', tp.where(b),
+                  'write(cursor, data) is dominated by available - cursor >= len(data)', 'the buffer write in try_push is not dominated by the available - cursor >= len(data) test, or does not write at the cursor (%s)' % pos)
+    # cursor advances by exactly len(data) after the write
+    dwp = effects.direct_writes(tp)
+    for b, k in dwp.get((WRITER_TY, 'cursor'), []):
+        st = [s2 for s2 in tp.blocks[b]['stmts'] if s2['k'] == 'assign' and s2['lhs']['p'] and s2['lhs']['p'][-1].get('n') == 'cursor']
+        txt = paths.show_operand(tp, st[0]['rv']['op']) if st else '?'
+        R.require(txt == 'Add(arg1.cursor,slice::len(arg2))', 'try-push-guard', W + 'try_push|advance', tp.where(b), 'cursor += len(data)', 'try_push advances the cursor by %s' % txt)
+    R.floor('try-push-guard', 2)
+    # write_u16 callers: constant header offsets or the RDLENGTH slot reserved in add_rr
+    for fn, b, t in [(fn, b, t) for fn in F.fns.values() if fn.gpath.startswith('message::writer::') for b, t in calls_in(fn, W + 'write_u16')]:
+        a = t['args'][1]
+        if a['k'] == 'const':
+            v = int(re.match(r'(\d+)', const_name(a)).group(1))
+            R.require(v + 2 <= 12, 'write-u16-offset', '%s|const-%d' % (fn.gpath, v), fn.where(b), 'header offset %d' % v, 'write_u16 at constant offset %d is outside the header' % v)
+        else:
+            # must be the saved cursor taken after the `available - cursor >= 2` test
+            txt = paths.show_operand(fn, a)
+            g = paths.dom_guards(fn, b)
+            ok = any(re.search(r'Lt\(Sub\(.*available.*cursor.*\),2_usize\) in \[0\]', x) for x in g) and 'cursor' in txt
+            R.require(ok, 'write-u16-offset', '%s|%s' % (fn.gpath, 'rdlength-slot'), fn.where(b), 'RDLENGTH slot reserved under available - cursor >= 2',
+                      'write_u16 at a variable offset (%s) that is not the RDLENGTH slot reserved under the available - cursor >= 2 test' % txt)
+    R.floor('write-u16-offset', 5)
+
